@@ -32,6 +32,15 @@ def align32(x: int) -> int:
     return ((x + 3) // 4) * 4
 
 
+def rgb_to_bgr(line: bytes) -> bytes:
+    """Reorder R, G, B sample triples to the B, G, R order of 24-bit BMP pixels"""
+    out = bytearray(line)
+    n = len(line) - len(line) % 3
+    out[0:n:3] = line[2:n:3]
+    out[2:n:3] = line[0:n:3]
+    return bytes(out)
+
+
 class BMPWriter:
     def __init__(self, fp: BinaryIO, bits: int, width: int, height: int) -> None:
         self.fp = fp
@@ -228,7 +237,10 @@ class ImageWriter:
             data = image.stream.get_data()
             i = 0
             for y in range(height):
-                bmp.write_line(y, data[i : i + bytes_per_line])
+                line = data[i : i + bytes_per_line]
+                if bits == 24:
+                    line = rgb_to_bgr(line)
+                bmp.write_line(y, line)
                 i += bytes_per_line
         return name
 
